@@ -4,6 +4,8 @@ import (
 	"fmt"
 	"time"
 
+	stackage "github.com/JesseCoretta/go-stackage"
+
 	"verifharness/core"
 )
 
@@ -154,6 +156,62 @@ func c02Run(c *core.Ctx, idx int) {
 		c.Violatef("fmt-differs", tree, "fmt %%s gives %q but String() %q", got2, got)
 		return
 	}
+	// second phase: change options on the LIVE instances (current and deprecated spellings, explicit and toggling
+	// forms) and render again - nothing computed for the first rendering may be reused stale
+	if idx%3 == 0 {
+		var live []stackage.Stack
+		var walk func(s stackage.Stack, d int)
+		walk = func(s stackage.Stack, d int) {
+			live = append(live, s)
+			for i := 0; i < s.Len() && d < 5; i++ {
+				v, _ := s.Index(i)
+				if ns, ok := knownStack(v); ok && ns.IsInit() {
+					walk(ns, d+1)
+				}
+			}
+		}
+		walk(root, 0)
+		var changes []string
+		for n := r.Range(1, 3); n > 0; n-- {
+			s := live[r.Intn(len(live))]
+			switch r.Intn(9) {
+			case 0:
+				s.SetFold()
+				changes = append(changes, "SetFold()")
+			case 1:
+				s.Fold()
+				changes = append(changes, "Fold()")
+			case 2:
+				s.SetFold(r.Bool())
+				changes = append(changes, "SetFold(b)")
+			case 3:
+				s.SetParen()
+				changes = append(changes, "SetParen()")
+			case 4:
+				s.SetNoPadding()
+				changes = append(changes, "SetNoPadding()")
+			case 5:
+				s.LeadOnce()
+				changes = append(changes, "LeadOnce()")
+			case 6:
+				s.SetSymbol([]string{"&", "und", ""}[r.Intn(3)])
+				changes = append(changes, "SetSymbol(x)")
+			case 7:
+				s.SetDelimiter([]string{",", " ", ""}[r.Intn(3)])
+				changes = append(changes, "SetDelimiter(x)")
+			default:
+				s.SetEncap()
+				changes = append(changes, "SetEncap()")
+			}
+		}
+		want2, ok2 := RefRenderStack(root)
+		got3 := root.String()
+		if ok2 && got3 != want2 {
+			c.Violatef("stale-after-option-change", tree, "after %v on live nodes String()=%q, canonical rendering %q (first rendering was %q) for %s", changes, got3, want2, got, tree.Brief())
+			return
+		}
+		c.Count("re-rendered-after-option-change")
+	}
 	// non-trivial: depth >= 2 and (non-ASCII or blank-run leaf, or >= 2 distinct option bits somewhere)
 	nonASCII, opts := false, map[string]bool{}
 	tree.Walk(func(n *TNode) {
@@ -252,7 +310,7 @@ func init() {
 		Run: c02Run,
 		Rule: "exhaustive: a fixed two-level tree (leaf, nested stack, Condition, non-ASCII leaf) for every outer kind {AND,OR,NOT,LIST} x inner kind {AND,OR,NOT,LIST,BASIC} x all 16 outer flag sets x all 16 inner flag sets x {words, symbol/delimiter(+encapsulation)}; " +
 			"random: trees of depth <= 4, width 0..4, every node drawing paren/fold/no-padding/lead-once, symbol, delimiter and 0..2 encapsulation pairs independently; leaves = ASCII words, multi-byte UTF-8 (accents, CJK, astral, combining marks), embedded blank/tab runs, leading/trailing blanks, the empty string, " +
-			"ints/uints/floats of every width, bools, stringers; Conditions valid and invalid (no operator, out-of-range operator) with primitive/Stack/Condition expressions. String() and fmt %s are compared with an independent renderer written from the statement. " +
+			"ints/uints/floats of every width, bools, stringers; Conditions valid and invalid (no operator, out-of-range operator) with primitive/Stack/Condition expressions. String() and fmt %s are compared with an independent renderer written from the statement; every third tree then has 1..3 options changed on live nodes (toggling, explicit and deprecated setter spellings, symbol, delimiter, encapsulation) and is rendered and compared again. " +
 			"non-trivial = depth >= 2 and (a non-ASCII or tab-containing leaf or >= 2 different options set somewhere); distinct = hash of the tree description.",
 		Assumptions: []string{
 			"outside the deciding domain (statement silent, counted as out-of-domain, only required not to be judged): nil/func/chan elements, zero-valued Condition elements, zero-valued stringers, leaf text that begins or ends with white space other than blank/tab, a parenthetical lead-once non-LIST stack without any rendered operand, installed presentation/validity policies",
@@ -260,7 +318,7 @@ func init() {
 			"number text = shortest decimal representation (strconv 'g' for floats)",
 		},
 		Floors: func(string) map[string]int64 {
-			return map[string]int64{"rendered": 20000, "trees.with-non-ascii-or-tab": 2000, "option-seen.fold": 1000, "option-seen.lonce": 1000, "option-seen.enc": 1000, "option-seen.sym": 1000, "option-seen.delim": 500}
+			return map[string]int64{"rendered": 20000, "trees.with-non-ascii-or-tab": 2000, "option-seen.fold": 1000, "option-seen.lonce": 1000, "option-seen.enc": 1000, "option-seen.sym": 1000, "option-seen.delim": 500, "re-rendered-after-option-change": 5000}
 		},
 	})
 }
